@@ -29,6 +29,8 @@
 //   RPM id D d srand reps        moments of gaussian_projection_matrix (meaningful with -DC19_PLAIN)
 //   RPP id D d srand             (-DC19_PLAIN) the std::rand answers gaussian_projection_matrix(D, d) consumes
 //                                (re-drawn after the same srand) and the matrix itself: replay of the polar method
+//   RPS id D d srand             the matrix gaussian_projection_matrix(D, d) returns after srand(s), twice in a row (M, M2): the
+//                                two calls of a translation pair under one seed (meaningful with -DC19_PLAIN)
 //   RPF id D d n r_1 .. r_n      (-DC19_PLAIN) std::rand is FORCED to answer r_1, r_2, ..., r_n, r_1, ... (the harness defines
 //                                rand(); glibc's is reached through dlsym): gaussian_projection_matrix(D, d) on an adversarial
 //                                stream (radius exactly 0, exactly 1, extreme answers); prints the matrix and the number of answers used
@@ -677,6 +679,31 @@ static void run_rpp(std::istream& in, const std::string& id)
     std::printf("\nEND %s\n", id.c_str());
 }
 
+// ------------------------------------------------------------------------------------------ RPS
+// Two library calls under the same std::rand seed (what a translation pair X, X + t does): the matrix of each.
+static void run_rps(std::istream& in, const std::string& id)
+{
+    int D, d;
+    unsigned srand_seed;
+    in >> D >> d >> srand_seed;
+    if (!in || D < 1 || d < 1 || D > 64 || d > 64)
+    {
+        std::printf("BADINPUT\nEND %s\n", id.c_str());
+        return;
+    }
+    for (int call = 0; call < 2; ++call)
+    {
+        std::srand(srand_seed);
+        DenseMatrix P = tapkee_internal::gaussian_projection_matrix(D, d);
+        std::printf(call == 0 ? "M %d %d" : "M2 %d %d", (int)P.rows(), (int)P.cols());
+        for (int r = 0; r < P.rows(); ++r)
+            for (int c = 0; c < P.cols(); ++c)
+                std::printf(" %a", P(r, c));
+        std::printf("\n");
+    }
+    std::printf("END %s\n", id.c_str());
+}
+
 #ifdef C19_PLAIN
 static bool read_forced(std::istream& in)
 {
@@ -762,6 +789,8 @@ int main()
             run_rpm(std::cin, id);
         else if (cmd == "RPP")
             run_rpp(std::cin, id);
+        else if (cmd == "RPS")
+            run_rps(std::cin, id);
 #ifdef C19_PLAIN
         else if (cmd == "RPF")
             run_rpf(std::cin, id);
